@@ -7,15 +7,16 @@
                                      DeleteMonitoredItems, DeleteSub, DeleteMonitoredItem
     server/session_broker.go         Session (nil for an unknown token)
 
-  The code as it is:
-    * a new subscription id is `len(Subs)+1` and `Subs[id] = sub` overwrites;
+  The code as it is (after the repair of the id allocation and of the two item
+  services):
+    * a new subscription id comes from a counter that only grows (skipping 0);
     * `DeleteSubscriptions` only *spawns* `DeleteSubscription(id)` calls (by id,
       in the background); the goroutine of a subscription that is shut down calls
       `DeleteSubscription(s.ID)` once more when it exits — both are `pending`
       calls here, applied by the explicit step `apply`;
-    * `SetMonitoringMode` / `DeleteMonitoredItems` dereference the looked-up item
-      before testing `ok` (unknown id: nil dereference) and overwrite the
-      ownership verdict with StatusOK;
+    * `SetMonitoringMode` / `DeleteMonitoredItems` answer
+      BadMonitoredItemIdInvalid for an unknown id and BadSessionIdInvalid for an
+      item of another session and go on to the next id without touching it;
     * monitored item ids come from an atomic counter that skips 0.
   Sessions are numbers; 0 stands for "no such session" (`Session()` returns nil).
 -/
@@ -44,12 +45,14 @@ structure St where
   items : List Item
   /-- `MonitoredItemService.id` -/
   itemCtr : Nat
+  /-- `SubscriptionService.lastSubID` -/
+  subCtr : Nat
   nextUid : Nat
   /-- `DeleteSubscription(id)` calls that have been spawned and not yet run -/
   pending : List Nat
   deriving Repr, DecidableEq
 
-def St.init (ctr : Nat) : St := ⟨[], [], ctr, 1, []⟩
+def St.init (ctr : Nat) (sctr : Nat := 0) : St := ⟨[], [], ctr, sctr, 1, []⟩
 
 def lookupSub (l : List (Nat × SubObj)) (id : Nat) : Option SubObj :=
   match l with
@@ -91,10 +94,16 @@ inductive Op where
   | deleteItems (sess : Nat) (ids : List Nat)
   deriving Repr, DecidableEq
 
-/-- `CreateSubscription`: `newsubid := uint32(len(s.Subs)) + 1; … s.Subs[newsubid] = sub` -/
+/-- `MonitoredItemService.NextID`, and the same scheme for subscription ids:
+    an atomic / locked 32-bit counter that skips 0 -/
+def nextID (ctr : Nat) : Nat :=
+  let i := (ctr + 1) % 4294967296
+  if i = 0 then 1 else i
+
+/-- `CreateSubscription`: `s.lastSubID++ (skipping 0); newsubid := s.lastSubID; … s.Subs[newsubid] = sub` -/
 def createSub (st : St) (sess : Nat) : Out × St :=
-  let id := st.subs.length + 1
-  (.subId id, { st with subs := putSub st.subs id ⟨st.nextUid, id, sess⟩, nextUid := st.nextUid + 1 })
+  let id := nextID st.subCtr
+  (.subId id, { st with subs := putSub st.subs id ⟨st.nextUid, id, sess⟩, subCtr := id, nextUid := st.nextUid + 1 })
 
 /-- the loop of `DeleteSubscriptions` on the table as it is when the handler runs.
     Returns the statuses, the spawned ids, and whether it panicked. -/
@@ -133,11 +142,6 @@ def applyDelete (st : St) (k : Nat) : Out × St :=
     | none => (.applied false, { st with items := items, pending := pend })
     | some _ => (.applied true, { st with subs := eraseSub st.subs id, items := items, pending := pend ++ [id] })
 
-/-- `MonitoredItemService.NextID` -/
-def nextID (ctr : Nat) : Nat :=
-  let i := (ctr + 1) % 4294967296
-  if i = 0 then 1 else i
-
 def allocIds : Nat → Nat → List Nat × Nat
   | 0, ctr => ([], ctr)
   | n + 1, ctr => let i := nextID ctr; let (l, c) := allocIds n i; (i :: l, c)
@@ -153,14 +157,16 @@ def createItems (st : St) (sess sub n : Nat) : Out × St :=
       let (ids, ctr) := allocIds n st.itemCtr
       (.itemIds ids, { st with items := st.items ++ ids.map (fun i => ⟨i, o, 0⟩), itemCtr := ctr })
 
-def setItemMode (l : List Item) (id mode : Nat) : List Item :=
-  l.map fun it => if it.id = id then { it with mode := mode } else it
+/-- `item.Mode = mode` for the table entry `id` (ids are map keys: first match) -/
+def setItemMode : List Item → Nat → Nat → List Item
+  | [], _, _ => []
+  | it :: r, id, mode => if it.id = id then { it with mode := mode } :: r else it :: setItemMode r id mode
 
 /-- the loop of `SetMonitoringMode`:
     ```
     item, ok := s.Items[id]
-    if item.Sub.Session.AuthTokenID.String() != sess.AuthTokenID.String() { results[i] = BadSessionIDInvalid }
     if !ok { results[i] = BadMonitoredItemIDInvalid; continue }
+    if item.Sub.Session.AuthTokenID.String() != sess.AuthTokenID.String() { results[i] = BadSessionIDInvalid; continue }
     item.Mode = req.MonitoringMode
     results[i] = ua.StatusOK
     ``` -/
@@ -168,11 +174,15 @@ def setModeLoop (items : List Item) (sess mode : Nat) : List Nat → List Status
   | [] => ([], items, false)
   | id :: rest =>
     match lookupItem items id with
-    | none => ([], items, true)                       -- item == nil: item.Sub dereferences nil
+    | none =>
+      let (ss, items', p) := setModeLoop items sess mode rest
+      (.badMonitoredItemIdInvalid :: ss, items', p)
     | some it =>
-      if it.sub.owner = 0 ∨ sess = 0 then ([], items, true)
+      if it.sub.owner = 0 ∨ sess = 0 then ([], items, true)   -- nil session: nil dereference
+      else if it.sub.owner ≠ sess then
+        let (ss, items', p) := setModeLoop items sess mode rest
+        (.badSessionIdInvalid :: ss, items', p)
       else
-        -- the BadSessionIDInvalid verdict, if any, is overwritten
         let (ss, items', p) := setModeLoop (setItemMode items id mode) sess mode rest
         (.ok :: ss, items', p)
 
@@ -184,8 +194,8 @@ def setMode (st : St) (sess mode : Nat) (ids : List Nat) : Out × St :=
     handler runs: the deletions are spawned and happen after it returns):
     ```
     item, ok := s.Items[id]
-    if !ok { results[i] = BadMonitoredItemIDInvalid }
-    if item.Sub.Session.AuthTokenID.String() != sess.AuthTokenID.String() { results[i] = BadSessionIDInvalid }
+    if !ok { results[i] = BadMonitoredItemIDInvalid; continue }
+    if item.Sub.Session.AuthTokenID.String() != sess.AuthTokenID.String() { results[i] = BadSessionIDInvalid; continue }
     go s.DeleteMonitoredItem(id)
     results[i] = ua.StatusOK
     ``` -/
@@ -193,9 +203,14 @@ def deleteItemsLoop (items : List Item) (sess : Nat) : List Nat → List Status 
   | [] => ([], [], false)
   | id :: rest =>
     match lookupItem items id with
-    | none => ([], [], true)
+    | none =>
+      let (ss, del, p) := deleteItemsLoop items sess rest
+      (.badMonitoredItemIdInvalid :: ss, del, p)
     | some it =>
       if it.sub.owner = 0 ∨ sess = 0 then ([], [], true)
+      else if it.sub.owner ≠ sess then
+        let (ss, del, p) := deleteItemsLoop items sess rest
+        (.badSessionIdInvalid :: ss, del, p)
       else
         let (ss, del, p) := deleteItemsLoop items sess rest
         (.ok :: ss, id :: del, p)
@@ -221,11 +236,14 @@ def run (st : St) : List Op → List Out × St
 def liveSubIds (st : St) : List Nat := st.subs.map (·.1)
 def liveItemIds (st : St) : List Nat := st.items.map (·.id)
 
-/-- the subscription table is `{1..n}` -/
-def Dense (st : St) : Prop := ∀ id, id ∈ liveSubIds st ↔ (1 ≤ id ∧ id ≤ st.subs.length)
+/-- subscription ids in use and ids named by pending background calls are in
+    1..counter (so the next id is new to both) -/
+def SubInv (st : St) : Prop :=
+  (∀ id, id ∈ liveSubIds st → 1 ≤ id ∧ id ≤ st.subCtr) ∧ (∀ id, id ∈ st.pending → 1 ≤ id ∧ id ≤ st.subCtr)
 
-/-- item ids in use are non-zero and not above the counter -/
-def ItemInv (st : St) : Prop := ∀ it ∈ st.items, 1 ≤ it.id ∧ it.id ≤ st.itemCtr
+/-- item ids in use are non-zero, not above the counter, and pairwise distinct -/
+def ItemInv (st : St) : Prop :=
+  (∀ it ∈ st.items, 1 ≤ it.id ∧ it.id ≤ st.itemCtr) ∧ (st.items.map (·.id)).Nodup
 
 /-- the session that issues a request (`apply` is nobody's request) -/
 def Op.session : Op → Option Nat
